@@ -69,6 +69,8 @@ var c06storage = []string{"S-torn", "S-zero", "S-flip", "S-dup", "S-drop", "S-sw
 var c06producer = []string{"P-cut", "P-empty", "P-missing", "P-misnest", "P-root", "P-place", "P-repeat", "P-nest", "P-vocab", "P-selfclose", "P-lex", "Z-names"}
 var c06reader = []string{"R-short", "R-err", "R-eof", "R-zero", "R-closeerr"}
 
+var c06lexParts = []string{"word/document.xml", "word/styles.xml", "[Content_Types].xml", "_rels/.rels", "word/_rels/document.xml.rels"}
+
 // c06VocabCombos is the size of the space the enumeration lane walks through: element name x spelling x containing element.
 var c06VocabCombos = len(c06vocab) * 4 * (len(c06childOf) + 1)
 
@@ -92,9 +94,14 @@ func (c06) Gen(r *sim.Rand, c *sim.Case, tier string) {
 			ops = g.DocOps(0, r.Range(4, 14))
 			ops = append(ops, sim.Op{K: "pg.margins", F: []float64{20, 20, 20, 20}})
 		}
-		ops = append(ops, sim.Op{K: "save"},
-			sim.Op{K: "P-vocab1", I: []int{r.Intn(1000), name, spelling, cont}, S: []sim.Str{"word/document.xml"}},
-			sim.Op{K: "open", I: []int{r.Intn(2), 0}})
+		fault := sim.Op{K: "P-vocab1", I: []int{r.Intn(1000), name, spelling, cont}, S: []sim.Str{"word/document.xml"}}
+		if (c.Run/3)%4 == 3 {
+			// every fourth case of the lane walks the lexical faults instead: variant x part x sub-variant
+			lc := int((c.Run/12 + c.Seed*104729) % uint64(16*len(c06lexParts)*4))
+			fault = sim.Op{K: "P-lex", I: []int{r.Intn(1000), lc / (16 * len(c06lexParts)), lc % 16, []int{2, 10, 100, 1000}[r.Intn(4)]}, S: []sim.Str{sim.Str(c06lexParts[lc/16%len(c06lexParts)])}}
+			c.Cfg["lex_enum"] = 1
+		}
+		ops = append(ops, sim.Op{K: "save"}, fault, sim.Op{K: "open", I: []int{r.Intn(2), 0}})
 		c.Tasks = [][]sim.Op{ops}
 		c.Order = orderPolicy(r)
 		c.OrderSeed = r.Uint64()
